@@ -97,3 +97,51 @@ Proof.
   - rewrite finished_quiet by reflexivity. rewrite P. cbn. rewrite !app_nil_r. reflexivity.
   - rewrite IH by (specialize (C eq_refl); lia). rewrite P. reflexivity.
 Qed.
+
+(* ---------- futures: relayed completely once polled often enough ----------
+   An entry of the script that makes a poll of the task return without finishing: Pending for every kind; for a future
+   also the answers a future cannot give (end of stream; an error for the infallible form), which the model treats as
+   "not ready yet". *)
+Definition waiting (k : akind) (x : presult) : bool :=
+  match k, x with
+  | _, PPending => true
+  | AFuture, PFail _ | AFuture, PEnd | AFutureResult, PEnd => true
+  | _, _ => false
+  end.
+
+Fixpoint waits (k : akind) (script : list presult) : nat :=
+  match script with [] => 0 | x :: r => (if waiting k x then 1 else 0) + waits k r end.
+
+Lemma future_pump_step k x r :
+  (k = AFuture \/ k = AFutureResult) ->
+  let '(o, r', f) := pump k (x :: r) in
+  r' = r /\ (f = false -> waiting k x = true /\ o = []).
+Proof.
+  intros [-> | ->]; destruct x; cbn; split; try reflexivity; intros H; try discriminate; split; reflexivity.
+Qed.
+
+Lemma future_never_ready k : (k = AFuture \/ k = AFutureResult) ->
+  forall n, outs (arun' k {| a_script := []; a_finished := false; a_keep := true; a_value := false |} (repeat APoll n)) = [].
+Proof.
+  intros Hk n. induction n as [|n IH]; [reflexivity|].
+  cbn [repeat arun' astep a_finished a_keep negb a_script].
+  destruct Hk as [-> | ->]; cbn [pump map app outs flat_map]; exact IH.
+Qed.
+
+Theorem future_complete k :
+  (k = AFuture \/ k = AFutureResult) ->
+  forall n script, (waits k script < n)%nat ->
+    outs (arun' k {| a_script := script; a_finished := false; a_keep := true; a_value := false |} (repeat APoll n))
+    = yields k script.
+Proof.
+  intros Hk n. induction n as [|n IH]; intros script Hn; [inversion Hn|].
+  destruct script as [|x r].
+  - rewrite (future_never_ready k Hk). destruct Hk as [-> | ->]; reflexivity.
+  - cbn [repeat arun' astep a_finished a_keep negb a_script].
+    pose proof (pump_yields k (x :: r)) as P. pose proof (future_pump_step k x r Hk) as S.
+    destruct (pump k (x :: r)) as [[o r'] f]. destruct S as [-> S].
+    rewrite outs_app, outs_map. destruct f.
+    + rewrite finished_quiet by reflexivity. rewrite P. cbn. rewrite !app_nil_r. reflexivity.
+    + destruct (S eq_refl) as [Hw ->]. cbn [waits] in Hn. rewrite Hw in Hn.
+      rewrite IH by (apply Nat.succ_lt_mono; exact Hn). rewrite P. reflexivity.
+Qed.
